@@ -6299,6 +6299,35 @@ class SFTPServerHandler(SFTPHandler):
         else:
             raise SFTPInvalidHandle('Invalid file handle')
 
+    async def _write_all(self, file_obj: object, offset: int,
+                         data: bytes) -> int:
+        """Write all of the data to a file
+
+           A write may store only part of the data it was given and
+           return the number of bytes it did write. As the only reply
+           to a write request is success or failure, write what's left
+           until everything is stored or an error is reported.
+
+        """
+
+        datalen = len(data)
+
+        while True:
+            result = self._server.write(file_obj, offset, data)
+
+            if inspect.isawaitable(result):
+                result = await cast(Awaitable[int], result)
+
+            count = cast(Optional[int], result)
+
+            if count is None or count >= len(data):
+                return datalen
+            elif count <= 0:
+                raise SFTPFailure('Unable to write all data')
+
+            offset += count
+            data = data[count:]
+
     async def _process_write(self, packet: SSHPacket) -> int:
         """Process an incoming SFTP write request"""
 
@@ -6315,12 +6344,7 @@ class SFTPServerHandler(SFTPHandler):
         file_obj = self._file_handles.get(handle)
 
         if file_obj:
-            result = self._server.write(file_obj, offset, data)
-
-            if inspect.isawaitable(result):
-                result = await cast(Awaitable[int], result)
-
-            return cast(int, result)
+            return await self._write_all(file_obj, offset, data)
         else:
             raise SFTPInvalidHandle('Invalid file handle')
 
@@ -6860,19 +6884,18 @@ class SFTPServerHandler(SFTPHandler):
 
                 data: bytes
 
-                result = self._server.write(dst, write_to_offset, data)
-
-                if inspect.isawaitable(result):
-                    await result
-
-                if len(data) < size:
+                # A read may return less than what was asked for before
+                # the end of the file, so only stop when nothing is left
+                if not data:
                     break
 
-                read_from_offset += size
-                write_to_offset += size
+                await self._write_all(dst, write_to_offset, data)
+
+                read_from_offset += len(data)
+                write_to_offset += len(data)
 
                 if not read_to_end:
-                    read_from_length -= size
+                    read_from_length -= len(data)
         else:
             raise SFTPInvalidHandle('Invalid file handle')
 
